@@ -34,6 +34,52 @@ theorem RefsValid.delRefs {g : Graph} {m : RefMap} (h : RefsValid g m) (rs : Lis
   · simp [hx] at hy
   · simp [hx] at hy; exact h x y hy
 
+/-! ### `qOnly`: a stable sort of the `q/` refs — same elements -/
+
+theorem mem_insBefore {α : Type} (lt : α → α → Bool) (x y : α) : ∀ (l : List α),
+    y ∈ insBefore lt x l ↔ y = x ∨ y ∈ l
+  | [] => by simp [insBefore]
+  | z :: zs => by
+    simp only [insBefore]
+    split
+    · simp [List.mem_cons]
+    · rw [List.mem_cons, mem_insBefore lt x y zs, List.mem_cons]
+      constructor
+      · rintro (h | h | h)
+        · exact Or.inr (Or.inl h)
+        · exact Or.inl h
+        · exact Or.inr (Or.inr h)
+      · rintro (h | h | h)
+        · exact Or.inr (Or.inl h)
+        · exact Or.inl h
+        · exact Or.inr (Or.inr h)
+
+theorem mem_stableSort_aux {α : Type} (lt : α → α → Bool) (y : α) : ∀ (l acc : List α),
+    y ∈ l.foldl (fun acc x => insBefore lt x acc) acc ↔ y ∈ acc ∨ y ∈ l
+  | [], acc => by simp
+  | x :: xs, acc => by
+    rw [List.foldl_cons, mem_stableSort_aux lt y xs, mem_insBefore, List.mem_cons]
+    constructor
+    · rintro ((h | h) | h)
+      · exact Or.inr (Or.inl h)
+      · exact Or.inl h
+      · exact Or.inr (Or.inr h)
+    · rintro (h | h | h)
+      · exact Or.inl (Or.inr h)
+      · exact Or.inl (Or.inl h)
+      · exact Or.inr h
+
+theorem mem_stableSort {α : Type} (lt : α → α → Bool) (y : α) (l : List α) : y ∈ stableSort lt l ↔ y ∈ l := by
+  unfold stableSort
+  rw [mem_stableSort_aux]
+  simp
+
+/-- the elements of `qOnly m` are the `q/` refs of `m`, whatever the order -/
+theorem mem_qOnly (m : RefMap) (r : Ref) :
+    r ∈ qOnly m ↔ r ∈ qRaw m := by
+  unfold qOnly
+  rw [mem_stableSort, mem_stableSort]
+
 /-- well-formed clone state -/
 structure Loc.OK (l : Loc) : Prop where
   wf : l.g.WF
@@ -98,6 +144,256 @@ theorem Loc.merge_spec {l l' : Loc} (hl : l.OK) {r : Ref} {srcs : List Commit}
             exact RefMap.get_set_ne _ _ hx
           · simp only
             exact RefMap.get_set_eq _ _ _
+
+/-! ### `consecutive_merge` (option `no_octopus`): `Loc.merge1`, `Loc.seq2`, `Loc.merge2`, and the selector `Loc.mergeN` -/
+
+theorem Loc.merge1_eq (l : Loc) (r : Ref) (c : Commit) :
+    (∃ l', l.merge r [c] = some l' ∧ l.merge1 r c = (l', true)) ∨
+    (l.merge r [c] = none ∧ l.merge1 r c = (l.ask.2, false)) := by
+  unfold Loc.merge1
+  cases h : l.merge r [c] with
+  | some l' => exact Or.inl ⟨l', rfl, rfl⟩
+  | none => exact Or.inr ⟨rfl, rfl⟩
+
+/-- the branch is still there and no other ref has changed (no well-formedness needed) -/
+def Loc.Kept (l l' : Loc) (r : Ref) : Prop :=
+  l'.refs.has r = true ∧ ∀ x, x ≠ r → l'.refs.get x = l.refs.get x
+
+theorem Loc.Kept.trans {l l1 l2 : Loc} {r : Ref} (h1 : Loc.Kept l l1 r) (h2 : Loc.Kept l1 l2 r) : Loc.Kept l l2 r :=
+  ⟨h2.1, fun x hx => (h2.2 x hx).trans (h1.2 x hx)⟩
+
+theorem Loc.merge_kept {l l' : Loc} {r : Ref} {srcs : List Commit} (h : l.merge r srcs = some l') :
+    Loc.Kept l l' r := by
+  unfold Loc.merge at h
+  cases hr : l.refs.get r with
+  | none => simp [hr] at h
+  | some tip =>
+    rw [hr] at h
+    simp only at h
+    cases ht : topHead l.g (tip :: srcs) with
+    | some hd =>
+      rw [ht] at h
+      simp only [Option.some.injEq] at h
+      subst h
+      exact ⟨(RefMap.has_iff _ _).mpr ⟨hd, RefMap.get_set_eq _ _ _⟩, fun x hx => RefMap.get_set_ne _ _ hx⟩
+    | none =>
+      rw [ht] at h
+      obtain ⟨_, har⟩ := l.ask_g
+      generalize l.ask = a at h har
+      obtain ⟨ok, la⟩ := a
+      simp only at h har
+      cases hmm : BertE.Git.merge la.g tip srcs ok with
+      | mk g' res =>
+        rw [hmm] at h
+        cases res with
+        | none => simp at h
+        | some c =>
+          simp only [Option.some.injEq] at h
+          subst h
+          refine ⟨(RefMap.has_iff _ _).mpr ⟨c, RefMap.get_set_eq _ _ _⟩, fun x hx => ?_⟩
+          simp only
+          rw [RefMap.get_set_ne _ _ hx, har]
+
+theorem Loc.merge1_kept {l : Loc} {r : Ref} (c : Commit) (hr : l.refs.has r = true) :
+    Loc.Kept l (l.merge1 r c).1 r := by
+  rcases l.merge1_eq r c with ⟨l', hm, he⟩ | ⟨_, he⟩
+  · rw [he]; exact Loc.merge_kept hm
+  · rw [he]
+    refine ⟨?_, fun x _ => by rw [l.ask_g.2]⟩
+    simp only [l.ask_g.2]; exact hr
+
+theorem Loc.seq2_kept {l : Loc} {r : Ref} (x y : Commit) (hr : l.refs.has r = true) :
+    Loc.Kept l (l.seq2 r x y).1 r := by
+  unfold Loc.seq2
+  have h1 := Loc.merge1_kept (l := l) x hr
+  simp only
+  split
+  · exact h1.trans (Loc.merge1_kept y h1.1)
+  · exact h1
+
+theorem Loc.merge2_kept {l l' : Loc} {r : Ref} {a b : Commit} (h : l.merge2 r a b = some l') : Loc.Kept l l' r := by
+  unfold Loc.merge2 at h
+  by_cases hr : l.refs.has r = true
+  · simp only [hr, Bool.not_true, Bool.false_eq_true, if_false] at h
+    have h1 := Loc.seq2_kept (l := l) a b hr
+    split at h
+    · simp only [Option.some.injEq] at h; subst h; exact h1
+    · have h2 := Loc.seq2_kept (l := (l.seq2 r a b).1) b a h1.1
+      split at h
+      · simp only [Option.some.injEq] at h; subst h; exact h1.trans h2
+      · cases h
+  · simp [hr] at h
+
+/-- `Loc.mergeN` changes no other ref and keeps the branch (whatever the strategy; no well-formedness needed) -/
+theorem Loc.mergeN_kept {l l' : Loc} {n : Bool} {r : Ref} {a b : Commit} (h : l.mergeN n r a b = some l') :
+    Loc.Kept l l' r := by
+  unfold Loc.mergeN at h
+  cases n with
+  | true => exact Loc.merge2_kept h
+  | false => exact Loc.merge_kept h
+
+/-- as `Loc.merge_other` (Lemmas/Prs), for either strategy -/
+theorem Loc.mergeN_other {l l' : Loc} {n : Bool} {r : Ref} {a b : Commit} (hm : l.mergeN n r a b = some l') :
+    ∀ x, x ≠ r → l'.refs.get x = l.refs.get x := (Loc.mergeN_kept hm).2
+
+/-- as `Loc.merge_refs` (Lemmas/Reset), for either strategy -/
+theorem Loc.mergeN_refs {l l' : Loc} {n : Bool} {r : Ref} {a b : Commit} (h : l.mergeN n r a b = some l') :
+    l'.refs.has r = true ∧ ∀ x, x ≠ r → l'.refs.get x = l.refs.get x := Loc.mergeN_kept h
+
+theorem Loc.mergeD_kept {l l' : Loc} {n : Bool} {r : Ref} {a b : Commit} (h : l.mergeD n r a b = some l') :
+    Loc.Kept l l' r := by
+  unfold Loc.mergeD at h
+  cases n with
+  | true => exact Loc.merge2_kept h
+  | false => exact Loc.merge_kept h
+
+theorem Loc.mergeD_other {l l' : Loc} {n : Bool} {r : Ref} {a b : Commit} (hm : l.mergeD n r a b = some l') :
+    ∀ x, x ≠ r → l'.refs.get x = l.refs.get x := (Loc.mergeD_kept hm).2
+
+theorem Loc.mergeD_refs {l l' : Loc} {n : Bool} {r : Ref} {a b : Commit} (h : l.mergeD n r a b = some l') :
+    l'.refs.has r = true ∧ ∀ x, x ≠ r → l'.refs.get x = l.refs.get x := Loc.mergeD_kept h
+
+/-- what a sequence of 2-way merges into `r` does, successful or not -/
+structure Loc.Step (l l' : Loc) (r : Ref) : Prop where
+  ok : l'.OK
+  ext : Extends l.g l'.g
+  same : ∀ x, x ≠ r → l'.refs.get x = l.refs.get x
+  grow : ∃ old new, l.refs.get r = some old ∧ l'.refs.get r = some new ∧ l'.g.le old new = true
+
+/-- the branch `r` of `l` contains `c` -/
+def Loc.Has (l : Loc) (r : Ref) (c : Commit) : Prop := ∃ new, l.refs.get r = some new ∧ l.g.le c new = true
+
+theorem Loc.Step.trans {l l1 l2 : Loc} {r : Ref} (h1 : Loc.Step l l1 r) (h2 : Loc.Step l1 l2 r) : Loc.Step l l2 r := by
+  obtain ⟨o, n, ho, hn, hon⟩ := h1.grow
+  obtain ⟨o', n', ho', hn', hon'⟩ := h2.grow
+  rw [hn] at ho'; simp only [Option.some.injEq] at ho'; subst ho'
+  refine ⟨h2.ok, h1.ext.trans h2.ext, fun x hx => (h2.same x hx).trans (h1.same x hx), o, n', ho, hn', ?_⟩
+  exact le_trans h2.ok.wf (h2.ext.le (h1.ok.valid _ _ hn) hon) hon'
+
+theorem Loc.Has.step {l1 l2 : Loc} {r : Ref} {c : Commit} (hl1 : l1.OK) (h : l1.Has r c) (h2 : Loc.Step l1 l2 r) :
+    l2.Has r c := by
+  obtain ⟨n, hn, hcn⟩ := h
+  obtain ⟨o', n', ho', hn', hon'⟩ := h2.grow
+  rw [hn] at ho'; simp only [Option.some.injEq] at ho'; subst ho'
+  exact ⟨n', hn', le_trans h2.ok.wf (h2.ext.le (hl1.valid _ _ hn) hcn) hon'⟩
+
+theorem Loc.Step.of_merge {l l' : Loc} (hl : l.OK) {r : Ref} {srcs : List Commit}
+    (hs : ∀ s ∈ srcs, s < l.g.size) (hm : l.merge r srcs = some l') :
+    Loc.Step l l' r ∧ ∀ s ∈ srcs, l'.Has r s := by
+  obtain ⟨hl', hext, hsame, old, new, ho, hn, hon, hsrc⟩ := Loc.merge_spec hl hs hm
+  exact ⟨⟨hl', hext, hsame, old, new, ho, hn, hon⟩, fun s hs' => ⟨new, hn, hsrc s hs'⟩⟩
+
+theorem Loc.merge1_step {l : Loc} (hl : l.OK) {r : Ref} {c : Commit} (hc : c < l.g.size)
+    (hr : l.refs.has r = true) :
+    Loc.Step l (l.merge1 r c).1 r ∧ ((l.merge1 r c).2 = true → (l.merge1 r c).1.Has r c) := by
+  rcases l.merge1_eq r c with ⟨l', hm, he⟩ | ⟨_, he⟩
+  · rw [he]
+    have hs : ∀ s ∈ [c], s < l.g.size := by
+      intro s hs; simp only [List.mem_cons, List.not_mem_nil, or_false] at hs; subst hs; exact hc
+    obtain ⟨h1, h2⟩ := Loc.Step.of_merge hl hs hm
+    exact ⟨h1, fun _ => h2 c List.mem_cons_self⟩
+  · rw [he]
+    obtain ⟨t, ht⟩ := (RefMap.has_iff _ _).mp hr
+    obtain ⟨hg, hrf⟩ := l.ask_g
+    refine ⟨⟨⟨by rw [hg]; exact hl.wf, by rw [hg, hrf]; exact hl.valid⟩, by rw [hg]; exact Extends.refl _,
+      fun x _ => by rw [hrf], t, t, ht, by rw [hrf]; exact ht, ?_⟩, fun h => by cases h⟩
+    rw [hg]; exact le_refl hl.wf (hl.valid _ _ ht)
+
+theorem Loc.seq2_step {l : Loc} (hl : l.OK) {r : Ref} {x y : Commit} (hx : x < l.g.size) (hy : y < l.g.size)
+    (hr : l.refs.has r = true) :
+    Loc.Step l (l.seq2 r x y).1 r ∧
+      ((l.seq2 r x y).2 = true → (l.seq2 r x y).1.Has r x ∧ (l.seq2 r x y).1.Has r y) := by
+  unfold Loc.seq2
+  obtain ⟨h1, h1c⟩ := Loc.merge1_step hl hx hr
+  have hk1 := Loc.merge1_kept (l := l) x hr
+  simp only
+  split
+  · rename_i hok
+    obtain ⟨h2, h2c⟩ := Loc.merge1_step (l := (l.merge1 r x).1) h1.ok (Nat.lt_of_lt_of_le hy h1.ext.1) hk1.1
+    exact ⟨h1.trans h2, fun h => ⟨(h1c hok).step h1.ok h2, h2c h⟩⟩
+  · rename_i hok
+    exact ⟨h1, fun h => absurd h hok⟩
+
+/-- **`Loc.merge2` post-condition** (same shape as `Loc.merge_spec`): successful consecutive merges of `a` and `b`
+    into branch `r` extend the graph, change no other ref, and the new tip of `r` contains its old tip, `a` and `b`
+    - whichever of the two attempts went through, whatever git answered. -/
+theorem Loc.merge2_spec {l l' : Loc} (hl : l.OK) {r : Ref} {a b : Commit}
+    (hs : ∀ s ∈ [a, b], s < l.g.size) (hm : l.merge2 r a b = some l') :
+    l'.OK ∧ Extends l.g l'.g ∧ (∀ x, x ≠ r → l'.refs.get x = l.refs.get x) ∧
+    ∃ old new, l.refs.get r = some old ∧ l'.refs.get r = some new ∧
+      l'.g.le old new = true ∧ ∀ s ∈ [a, b], l'.g.le s new = true := by
+  have ha : a < l.g.size := hs a List.mem_cons_self
+  have hb : b < l.g.size := hs b (List.mem_cons_of_mem _ List.mem_cons_self)
+  have fin : ∀ {l' : Loc}, Loc.Step l l' r → l'.Has r a → l'.Has r b →
+      l'.OK ∧ Extends l.g l'.g ∧ (∀ x, x ≠ r → l'.refs.get x = l.refs.get x) ∧
+      ∃ old new, l.refs.get r = some old ∧ l'.refs.get r = some new ∧
+        l'.g.le old new = true ∧ ∀ s ∈ [a, b], l'.g.le s new = true := by
+    intro l' hst hha hhb
+    obtain ⟨o, n, ho, hn, hon⟩ := hst.grow
+    obtain ⟨na, hna, hla⟩ := hha
+    obtain ⟨nb, hnb, hlb⟩ := hhb
+    rw [hn] at hna hnb
+    simp only [Option.some.injEq] at hna hnb
+    subst hna; subst hnb
+    refine ⟨hst.ok, hst.ext, hst.same, o, n, ho, hn, hon, ?_⟩
+    intro s hs'
+    simp only [List.mem_cons, List.not_mem_nil, or_false] at hs'
+    rcases hs' with rfl | rfl
+    · exact hla
+    · exact hlb
+  unfold Loc.merge2 at hm
+  by_cases hr : l.refs.has r = true
+  · simp only [hr, Bool.not_true, Bool.false_eq_true, if_false] at hm
+    obtain ⟨h1, h1c⟩ := Loc.seq2_step hl ha hb hr
+    have hk1 := Loc.seq2_kept (l := l) a b hr
+    split at hm
+    · rename_i hok
+      simp only [Option.some.injEq] at hm; subst hm
+      exact fin h1 (h1c hok).1 (h1c hok).2
+    · obtain ⟨h2, h2c⟩ := Loc.seq2_step (l := (l.seq2 r a b).1) h1.ok (Nat.lt_of_lt_of_le hb h1.ext.1)
+        (Nat.lt_of_lt_of_le ha h1.ext.1) hk1.1
+      split at hm
+      · rename_i hok
+        simp only [Option.some.injEq] at hm; subst hm
+        exact fin (h1.trans h2) (h2c hok).2 (h2c hok).1
+      · cases hm
+  · simp [hr] at hm
+
+/-- **`Loc.mergeN` post-condition**: the post-condition of `Loc.merge_spec`, for either strategy. -/
+theorem Loc.mergeN_spec {l l' : Loc} (hl : l.OK) {n : Bool} {r : Ref} {a b : Commit}
+    (hs : ∀ s ∈ [a, b], s < l.g.size) (hm : l.mergeN n r a b = some l') :
+    l'.OK ∧ Extends l.g l'.g ∧ (∀ x, x ≠ r → l'.refs.get x = l.refs.get x) ∧
+    ∃ old new, l.refs.get r = some old ∧ l'.refs.get r = some new ∧
+      l'.g.le old new = true ∧ ∀ s ∈ [a, b], l'.g.le s new = true := by
+  unfold Loc.mergeN at hm
+  cases n with
+  | true => exact Loc.merge2_spec hl hs hm
+  | false => exact Loc.merge_spec hl hs hm
+
+/-- **`Loc.mergeD` post-condition**: the post-condition of `Loc.merge_spec`, for either strategy (the order in which
+    `consecutive_merge` takes the two sources does not matter for it). -/
+theorem Loc.mergeD_spec {l l' : Loc} (hl : l.OK) {n : Bool} {r : Ref} {a b : Commit}
+    (hs : ∀ s ∈ [a, b], s < l.g.size) (hm : l.mergeD n r a b = some l') :
+    l'.OK ∧ Extends l.g l'.g ∧ (∀ x, x ≠ r → l'.refs.get x = l.refs.get x) ∧
+    ∃ old new, l.refs.get r = some old ∧ l'.refs.get r = some new ∧
+      l'.g.le old new = true ∧ ∀ s ∈ [a, b], l'.g.le s new = true := by
+  unfold Loc.mergeD at hm
+  cases n with
+  | false => exact Loc.merge_spec hl hs hm
+  | true =>
+    have hs' : ∀ s ∈ [b, a], s < l.g.size := by
+      intro s h
+      simp only [List.mem_cons, List.not_mem_nil, or_false] at h
+      rcases h with rfl | rfl
+      · exact hs _ (List.mem_cons_of_mem _ List.mem_cons_self)
+      · exact hs _ List.mem_cons_self
+    obtain ⟨h1, h2, h3, o, nw, ho, hn, hon, hsrc⟩ := Loc.merge2_spec hl hs' hm
+    refine ⟨h1, h2, h3, o, nw, ho, hn, hon, ?_⟩
+    intro s h
+    simp only [List.mem_cons, List.not_mem_nil, or_false] at h
+    rcases h with rfl | rfl
+    · exact hsrc _ (List.mem_cons_of_mem _ List.mem_cons_self)
+    · exact hsrc _ List.mem_cons_self
 
 end BertE.Flow
 
@@ -182,7 +478,7 @@ theorem mergeRest_spec {pr : PrInfo} : ∀ (ds : List Dest) {l l' : Loc} {prevD 
     | some wc =>
       rw [hw] at hm
       simp only at hm
-      cases hm1 : l.merge (.dest d) [prevD, wc] with
+      cases hm1 : l.mergeD pr.noOct (.dest d) prevD wc with
       | none => simp [hm1] at hm
       | some l1 =>
         rw [hm1] at hm
@@ -193,7 +489,7 @@ theorem mergeRest_spec {pr : PrInfo} : ∀ (ds : List Dest) {l l' : Loc} {prevD 
           rcases hs with rfl | rfl
           · exact hp
           · exact hl.valid _ _ hw
-        obtain ⟨hl1, hext1, hsame1, o, n, ho, hn, hon, hsn⟩ := Loc.merge_spec hl hsrcs hm1
+        obtain ⟨hl1, hext1, hsame1, o, n, ho, hn, hon, hsn⟩ := Loc.mergeD_spec hl hsrcs hm1
         rw [hn] at hm
         simp only at hm
         have hnlt : n < l1.g.size := hl1.valid _ _ hn
@@ -346,7 +642,7 @@ theorem directMerge_safe {s : Sys} {l4 : Loc} {pr : PrInfo} {sc : Commit} {ts : 
     have : Ref.dest d ∉ qs := by
       rw [← hqs]
       split
-      · unfold qOnly
+      · rw [mem_qOnly]; unfold qRaw
         simp only [List.mem_map, List.mem_filter, not_exists, not_and]
         intro x hx hxe
         rw [hxe] at hx
@@ -453,7 +749,7 @@ theorem updateW_wonly (pr : PrInfo) : ∀ (ds : List Dest) {l : Loc} {prev : Com
     | none => exact WOnly.refl hl
     | some t =>
       simp only
-      cases hm : l.merge (.w d pr.src) [t, prev] with
+      cases hm : l.mergeN pr.noOct (.w d pr.src) t prev with
       | none => exact WOnly.refl hl
       | some l' =>
         simp only
@@ -463,7 +759,7 @@ theorem updateW_wonly (pr : PrInfo) : ∀ (ds : List Dest) {l : Loc} {prev : Com
           rcases hx with rfl | rfl
           · exact hl.valid _ _ ht
           · exact hp
-        obtain ⟨hl', hext, hsame, _, n, _, hn, _, _⟩ := Loc.merge_spec hl hs hm
+        obtain ⟨hl', hext, hsame, _, n, _, hn, _, _⟩ := Loc.mergeN_spec hl hs hm
         have h1 : WOnly l l' := ⟨hl', hext, fun x hx => hsame x (hx d pr.src)⟩
         rw [hn]
         simp only
